@@ -59,6 +59,15 @@ func runChain(c *h.Ctx, cs chain.Case) {
 			}
 		}
 	}
+	if !r.R[9] {
+		// a store that fails ONE lookup (each lookup in turn, counted over the whole check, in each of the ways stores
+		// fail) and answers all others: whatever that does to the verdict, a chain holding an expired / not yet
+		// active token is not allowed
+		if how, ok := chain.FlakyAllowed(b, len(cs.Links), nil); ok {
+			c.Fail("C04/chain/flaky-loader/allowed-with-invalid-token", "ExecutionAllowed returned nil although a token of the chain is expired / not yet active; %s (deviations %v)\ncase: %+v", how, cs.Dev, cs)
+		}
+		c.P.Class("flaky-loader")
+	}
 	if d.Allowed && !r.R[9] {
 		c.Fail("C04/chain/allowed-with-invalid-token:"+devClass(cs), "ExecutionAllowed returned nil although a token of the chain is expired / not yet active (deviations %v)\ncase: %+v", cs.Dev, cs)
 	}
